@@ -46,6 +46,7 @@ type jobTrack struct {
 	firstDeletionSeenAt *time.Time
 	userKillAt *time.Time
 	recordedSucceeded map[string]bool // task name -> some status version recorded Result=Succeeded
+	killRevoked string // set when a kill timestamp that had already passed was removed or changed
 	resultSeq   uint64 // API sequence at which the current finished result was first recorded
 	userEditSeq uint64 // API sequence of the last user edit (killTimestamp change / deletion request)
 }
@@ -135,6 +136,10 @@ func (t *tracker) onEvent(ev *APIEvent) {
 			delRequested := old.DeletionTimestamp == nil && j.DeletionTimestamp != nil
 			if killChanged || delRequested {
 				jt.userEditSeq = ev.Seq
+			}
+			if okt := old.Spec.KillTimestamp; killChanged && okt != nil && !okt.Time.After(ev.Time) && jt.killRevoked == "" {
+				jt.killRevoked = fmt.Sprintf("kill timestamp %s had passed and was changed to %v at %s by %s", fmtT(okt.Time), j.Spec.KillTimestamp, fmtT(ev.Time), ev.Actor)
+				t.w.Sim.Stats["mon.c12.passed_kill_changed"]++
 			}
 			of, nf := old.Status.Condition.Finished, j.Status.Condition.Finished
 			if nf != nil && (of == nil || of.Result != nf.Result) {
